@@ -728,7 +728,7 @@ class Processes:
             # the visibility of 'debug' commands from external processes
             log.warning(lazymsg('api.response.content process={p} response={r}', p=process, r=string), 'api')
 
-        data = bytes(f'{string}\n', 'ascii')
+        data = bytes(f'{string}\n', 'utf-8')
 
         # In async mode, queue the write instead of blocking
         if self._async_mode:
@@ -849,7 +849,7 @@ class Processes:
             # the visibility of 'debug' commands from external processes
             log.warning(lazymsg('api.response.content process={p} response={r}', p=process, r=string), 'api')
 
-        data = bytes(f'{string}\n', 'ascii')
+        data = bytes(f'{string}\n', 'utf-8')
 
         # Get stdin file descriptor (non-blocking, set in _start())
         stdin_fd = self._get_stdin(process).fileno()
